@@ -203,7 +203,13 @@ static void gauss_group(Group & g, verif::Rng & rng, int ncases)
     double hi = lo + 0.2 + 2.5 * rng.uniform();
     if (p.kind == 5) { lo = std::fabs(lo); hi = lo + 0.2 + 2.5 * rng.uniform(); }
     if (p.kind == 6) p.a = 4 + 40 * rng.uniform();
-    if (p.kind == 7) { p.a = 0.02 + 0.2 * rng.uniform(); p.b = lo + (hi - lo) * (0.2 + 0.6 * rng.uniform()); }
+    if (p.kind == 7) {
+      // a narrow peak, but one the rule can see: QNG is a fixed sequence of 10/21/43/87-point rules whose error estimate compares
+      // successive rules; a peak much narrower than the spacing of the 21 nodes (about 1/20 of the interval) falls between the nodes of
+      // both coarse rules and is reported as converged - "smooth" in the property means smooth at the resolution of the rule
+      p.a = std::max(0.02 + 0.2 * rng.uniform(), 0.06 * (hi - lo));
+      p.b = lo + (hi - lo) * (0.2 + 0.6 * rng.uniform());
+    }
     static const double scales[] = {1.0, 1e-6, 1e-12, 1e-20, 1e-60, 1e9};
     p.scale = scales[(c / 8) % 6];
     long double ex = (long double)p.scale * smooth_exact(p, lo, hi);
